@@ -570,8 +570,10 @@ def run_property(modname, tier='quick', seed=0, rebaseline=False, only=None, can
             surv = [c for c in rep.canaries if c[2] != 'killed' and not any(e in c[1] for e in expected)]
             min_kill = getattr(module, 'MIN_CANARY_KILL_RATIO', 0.0)
             killed = len([c for c in rep.canaries if c[2] == 'killed'])
-            if rep.canaries and killed / len(rep.canaries) < min_kill:
-                rep.undecided.append(f'canary kill ratio {killed}/{len(rep.canaries)} below the required {min_kill}')
+            counted = [c for c in rep.canaries if c[2] == 'killed' or not any(e in c[1] or e in c[0] for e in expected)]
+            if counted and killed / len(counted) < min_kill:
+                rep.undecided.append(f'canary kill ratio {killed}/{len(counted)} below the required {min_kill} '
+                                     f'(survivors: {[c[1][:60] for c in surv][:5]})')
 
     # ---- thorough-only: bounded cross-checks supplied by the module -------------------------------------------------
     for fn in getattr(module, 'BOUNDED_CHECKS', []):
